@@ -348,6 +348,20 @@ def check_supplied_normalization(ctx, F, b, role_name):
     return ctx.ok('R4', role, b.defpath, '%d accepting path(s) depend on the supplied value; each compares it with a data-dependent term' % n_dep, key=key)
 
 
+def _next_is_some(t, v):
+    """the outcome `iterator.next()` yielded an item, in any spelling: is_some() taken, is_none() not taken, a match arm."""
+    if isinstance(v, tuple):
+        return False
+    v = bool(v)
+    while isinstance(t, tuple) and t and (t[0] == 'not' or (t[0] == 'un' and t[1] == 'Not')):
+        t, v = (t[1] if t[0] == 'not' else t[2]), not v
+    if isinstance(t, tuple) and t and t[0] == 'is' and t[2][0] == 'call' and t[2][1] == 'core::iter::Iterator::next':
+        return (t[1] == 'Some') == v
+    if isinstance(t, tuple) and t and t[0] == 'discr' and isinstance(t[1], tuple) and t[1] and t[1][0] == 'call' and t[1][1] == 'core::iter::Iterator::next':
+        return sym.discr_variant(t, 1 if v else 0) == 'Some' or sym.discr_variant(t, v) == 'Some'
+    return False
+
+
 def check_sibling_agreement(ctx, F):
     ingesters = []
     for b in F.bodies:
@@ -410,7 +424,7 @@ def check_sibling_agreement(ctx, F):
             for t, v, _ in r.preds:
                 if t[0] == 'bin' and t[1] in ('Eq', 'Ne') and all(sym.contains(o, lambda y: isinstance(y, tuple) and y and y[0] == 'len') for o in (t[2], t[3])):
                     too_few = True
-                if t[0] == 'is' and t[1] == 'Some' and t[2][0] == 'call' and t[2][1] == 'core::iter::Iterator::next' and v == 1:
+                if _next_is_some(t, v):
                     too_many = True
         if zips and not (too_few and too_many):
             ctx.bad('R4', role, b.defpath, 'pairs `symbols` with the probabilities through Iterator::zip at %s, which silently truncates to the shorter side, and does not reject %s (siblings reject a count mismatch)' % (
@@ -432,7 +446,7 @@ def check_sibling_agreement(ctx, F):
             if r.end != 'return':
                 continue
             for t, v, _ in r.preds:
-                if t[0] == 'is' and t[1] == 'Some' and t[2][0] == 'call' and t[2][1] == 'core::iter::Iterator::next' and v == 1 and rules.ret_shape(r.ret)[0] == 'Err':
+                if _next_is_some(t, v) and rules.ret_shape(r.ret)[0] == 'Err':
                     too_many = True
         (ctx.ok if too_many else ctx.bad)('R4', 'surplus symbols are rejected', b.defpath,
                                           '`symbols.next().is_some()` => Err present' if too_many else 'no rejection of surplus symbols found', key=key)
